@@ -2,9 +2,10 @@
    Only ExtrOcamlBasic is used: nat, positive, N, Z stay the extracted inductives. *)
 Require Extraction.
 Require Import ExtrOcamlBasic.
-From LogV Require Import Base.Bytes Base.Utf8 Base.JsonStr Model.Tag Model.Escape Model.Retention.
+From LogV Require Import Base.Bytes Base.Utf8 Base.JsonStr Model.Tag Model.Escape Model.Retention Model.Level Model.Deliver.
 Extraction Language OCaml.
 Extraction "model.ml" Z.add Z.mul Z.opp Z.of_N Z.to_N N.add N.of_nat N.to_nat
   is_valid_tag build_tag register_tag all_tags
   bytes_eqb escape sanitize unescape
-  clear_expired.
+  clear_expired
+  builtin_levels parse_range deliver_refs deliver_simple deliver_rolling log_via entry_level.
